@@ -1,6 +1,6 @@
 (** Properties/C10.v — Derive-time validation accepts exactly the well-formed declarations.
     Statements only. *)
-From DarlingModel Require Import Options.Resolve Options.FieldOrderProofs Options.VariantOrderProofs Options.ContainerOrderProofs.
+From DarlingModel Require Import Options.Resolve Options.FieldOrderProofs Options.VariantOrderProofs Options.ContainerOrderProofs Spec.C10 Options.SpecBridge.
 From Coq Require Import Permutation.
 Local Open Scope string_scope.
 Local Open Scope list_scope.
@@ -158,3 +158,49 @@ Print Assumptions C10_variant_accept_iff_well_formed.
 Print Assumptions C10_variant_acceptance_order_and_split_free.
 Print Assumptions C10_container_accepts_exactly.
 Print Assumptions C10_container_order_and_split_free_without_from_ident.
+
+(** THE READING IS THE CHAIN, for one field.  Spec/C10.v's [field_wf] - written from the property text
+    as counts of option NAMES plus "the value is in its accepted form", with no state and no order,
+    and evaluated on the code's verdict in every run - holds exactly when the model's order-sensitive
+    chain reports no error: for every field, whatever its attributes look like (name-value
+    attributes, malformed lists and literal items included), in any order and any split. *)
+Theorem C10_field_reading_is_the_chain :
+  forall reparse reparse_preds rf,
+    Forall attr_shaped (rf_attrs rf) ->
+    (snd (parse_attributes (field_step reparse reparse_preds) (field0 rf) (rf_attrs rf)) = []
+     <-> field_wf reparse reparse_preds (rf_attrs rf) = true).
+Proof. exact field_chain_is_the_reading. Qed.
+
+(** The same for a variant's own options (`rename`, `skip`, `word`). *)
+Theorem C10_variant_reading_is_the_chain :
+  forall reparse reparse_preds ident style attrs,
+    Forall attr_shaped attrs ->
+    (snd (parse_attributes (variant_step reparse reparse_preds) (mkV ident None None None style []) attrs) = []
+     <-> exists items, all_items attrs = Some items
+                       /\ variant_items_wf reparse reparse_preds (is_unit style) items = true).
+Proof. exact variant_chain_is_the_reading. Qed.
+
+(** The same for the CONTAINER options of every derive: the chain reports no error exactly when the
+    reading [container_wf] holds and no `default` is written after a `from_ident` - the reading is
+    order-free, the second clause is the recorded finding, stated on the declaration's own items;
+    where `from_ident` is not written the reading alone decides. *)
+Theorem C10_container_reading_is_the_chain :
+  forall reparse reparse_preds t attrs,
+    Forall attr_shaped attrs ->
+    (snd (parse_attributes (container_step reparse reparse_preds t) copts0 attrs) = []
+     <-> container_wf reparse reparse_preds t attrs = true
+         /\ exists items, all_items attrs = Some items /\ default_after_from_ident false items = false).
+Proof. exact container_chain_is_the_reading. Qed.
+
+Theorem C10_container_reading_is_the_chain_without_from_ident :
+  forall reparse reparse_preds t attrs,
+    Forall attr_shaped attrs ->
+    (forall items, all_items attrs = Some items -> count "from_ident" items = 0%nat) ->
+    (snd (parse_attributes (container_step reparse reparse_preds t) copts0 attrs) = []
+     <-> container_wf reparse reparse_preds t attrs = true).
+Proof. exact container_chain_is_the_reading_without_from_ident. Qed.
+
+Print Assumptions C10_field_reading_is_the_chain.
+Print Assumptions C10_container_reading_is_the_chain.
+Print Assumptions C10_container_reading_is_the_chain_without_from_ident.
+Print Assumptions C10_variant_reading_is_the_chain.
